@@ -15,6 +15,8 @@ pub const SHAPES: &[&str] = &[
     "seq-flat", "map-flat", "flowseq-wide", "flowmap-wide", "flowpairs-wide", "plain-lines", "dq-lines", "dq-escapes", "sq-long",
     "docs", "docs-bare", "anchors", "aliases", "comments", "blank-lines", "literal-long", "folded-long", "tags", "tag-directives",
     "unclosed-dq", "qkey-flat", "spaces", "tabs", "longkey", "crlf-lines", "flow-multiline", "flow-keys-unresolved",
+    // what the loaders build out of aliases (each alias is replaced by a copy): depth and size that the text does not have
+    "alias-chain", "alias-doubling",
 ];
 
 pub fn text(shape: &str, n: usize) -> String {
@@ -55,6 +57,14 @@ pub fn text(shape: &str, n: usize) -> String {
         "crlf-lines" => rep("- a\r\n"),
         "flow-multiline" => "[\n".to_string() + &rep("  a,\n") + "  b\n]\n",
         "flow-keys-unresolved" => "[".to_string() + &rep("\"a\" ,") + "\"b\"]\n",
+        // entry i holds a copy of entry i - 1: the loaded tree is nested n deep, the text one level
+        "alias-chain" => (0..n).map(|i| if i == 0 { "- &a0 [x]\n".to_string() } else { format!("- &a{i} [*a{}]\n", i - 1) }).collect(),
+        // entry i holds two copies of entry i - 1: 2^i leaves. The parameter only selects 10 levels (small) or 19 levels
+        // (large): twice the text, 512 times the tree
+        "alias-doubling" => {
+            let levels = if n < 100_000 { 10 } else { 19 };
+            (0..levels).map(|i| if i == 0 { "- &a0 [x]\n".to_string() } else { format!("- &a{i} [*a{}, *a{}]\n", i - 1, i - 1) }).collect()
+        }
         _ => String::new(),
     }
 }
